@@ -40,6 +40,8 @@ class BaseFS:
 
 
 class ModelFS(BaseFS):
+  """files: path -> handle ({'data': bytes}); an open writer keeps its handle, so a rename does not detach it (inode semantics)."""
+
   def __init__(self):
     super().__init__()
     self.files = {}
@@ -47,20 +49,29 @@ class ModelFS(BaseFS):
   # primitive operations
   def create(self, path):
     self.tick('create ' + path)
-    self.files[path] = b''
+    h = {'data': b''}
+    self.files[path] = h
+    return h
 
-  def append(self, path, data):
+  def open_append(self, path):
+    self.tick('open-append ' + path)
+    return self.files[path]
+
+  def append(self, handle, data):
     try:
-      self.tick('write ' + path)
+      self.tick('write')
     except Crash:
-      self.files[path] = self.files[path] + data[:min(self.cut, len(data))]
+      handle['data'] = handle['data'] + data[:min(self.cut, len(data))]
       raise
-    self.files[path] = self.files[path] + data
+    handle['data'] = handle['data'] + data
+
+  def close(self, handle):
+    pass
 
   def read(self, path):
     if path not in self.files:
       raise FileNotFoundError(path)
-    return self.files[path]
+    return self.files[path]['data']
 
   def rename(self, src, dst):
     if src not in self.files:
@@ -88,7 +99,8 @@ class ModelFS(BaseFS):
 
 
 class DiskFS(BaseFS):
-  """Same interface on a real temporary directory; paths given by the code are mapped below the temp root."""
+  """Same interface on a real temporary directory; paths given by the code are mapped below the temp root.  Writers keep a
+  real unbuffered file descriptor open (so a rename does not detach them)."""
 
   def __init__(self):
     super().__init__()
@@ -100,17 +112,22 @@ class DiskFS(BaseFS):
   def create(self, path):
     self.tick('create ' + path)
     os.makedirs(os.path.dirname(self._p(path)), exist_ok=True)
-    open(self._p(path), 'wb').close()
+    return open(self._p(path), 'wb', buffering=0)
 
-  def append(self, path, data):
+  def open_append(self, path):
+    self.tick('open-append ' + path)
+    return open(self._p(path), 'ab', buffering=0)
+
+  def append(self, handle, data):
     try:
-      self.tick('write ' + path)
+      self.tick('write')
     except Crash:
-      with open(self._p(path), 'ab') as f:
-        f.write(data[:min(self.cut, len(data))])
+      handle.write(data[:min(self.cut, len(data))])
       raise
-    with open(self._p(path), 'ab') as f:
-      f.write(data)
+    handle.write(data)
+
+  def close(self, handle):
+    handle.close()
 
   def read(self, path):
     with open(self._p(path), 'rb') as f:
@@ -166,9 +183,9 @@ class _Writer:
   def __init__(self, fs, path, text, append=False):
     self.fs, self.path, self.text = fs, path, text
     if append and fs.exists(path):
-      fs.tick('open-append ' + path)
+      self.handle = fs.open_append(path)
     else:
-      fs.create(path)
+      self.handle = fs.create(path)
     self.closed = False
     self.pending = b''
     self.pending_v = 0
@@ -183,18 +200,21 @@ class _Writer:
       self.pending_v += vlen
     else:
       out, self.pending, self.pending_v = self.pending + data, b'', 0
-      self.fs.append(self.path, out)
+      self.fs.append(self.handle, out)
     return len(data)
 
   def flush(self):
     if self.pending:
       out, self.pending, self.pending_v = self.pending, b'', 0
-      self.fs.append(self.path, out)
+      self.fs.append(self.handle, out)
 
   def close(self):
     if not self.closed:
       self.closed = True
-      self.flush()
+      try:
+        self.flush()
+      finally:
+        self.fs.close(self.handle)
 
   def __enter__(self):
     return self
@@ -202,6 +222,7 @@ class _Writer:
   def __exit__(self, *a):
     if a and a[0] is not None and issubclass(a[0], Crash):
       self.closed = True      # the process died: buffered data is lost
+      self.fs.close(self.handle)
       return False
     self.close()
     return False
